@@ -124,14 +124,10 @@ func nilGuarded(fn *ssa.Function, at ssa.Instruction, v ssa.Value) bool {
 }
 
 // lenGuarded: some comparison involving len(x) (x at the same location as v) decides whether `at` is reached.
-var depthLG int
-
-// minLenLG: the length the guarded access needs (0: unknown, any length test is accepted).
-var minLenLG int64
 
 // helperTrueImpliesLenTest: every way the boolean helper g can return true is controlled by a
 // test of len(par) inside g.
-func helperTrueImpliesLenTest(g *ssa.Function, par *ssa.Parameter) bool {
+func helperTrueImpliesLenTest(g *ssa.Function, par *ssa.Parameter, minLenLG int64, depthLG int) bool {
 	if g.Signature.Results().Len() != 1 {
 		return false
 	}
@@ -160,18 +156,18 @@ func helperTrueImpliesLenTest(g *ssa.Function, par *ssa.Parameter) bool {
 		}
 		for _, b := range blocks {
 			n++
-			depthLG++
 			// any instruction of b serves as the position to be guarded
-			if !lenGuarded(g, b.Instrs[len(b.Instrs)-1], par) {
+			if !lenGuardedN(g, b.Instrs[len(b.Instrs)-1], par, minLenLG, depthLG+1) {
 				okAll = false
 			}
-			depthLG--
 		}
 	})
 	return okAll && n > 0
 }
 
-func lenGuarded(fn *ssa.Function, at ssa.Instruction, v ssa.Value) bool {
+// lenGuardedN: a test of len(v) controls `at`; minLenLG is the length the guarded access needs
+// (0: unknown, any length test is accepted).
+func lenGuardedN(fn *ssa.Function, at ssa.Instruction, v ssa.Value, minLenLG int64, depthLG int) bool {
 	for _, b := range fn.Blocks {
 		ifi, ok := b.Instrs[len(b.Instrs)-1].(*ssa.If)
 		if !ok {
@@ -182,7 +178,7 @@ func lenGuarded(fn *ssa.Function, at ssa.Instruction, v ssa.Value) bool {
 		if call, ok := cond.(*ssa.Call); ok && depthLG < 2 {
 			if g := call.Call.StaticCallee(); g != nil && g.Blocks != nil && ModuleFunc(g) {
 				for ai, a := range call.Call.Args {
-					if (a == v || sameLoc(a, v)) && ai < len(g.Params) && helperTrueImpliesLenTest(g, g.Params[ai]) {
+					if (a == v || sameLoc(a, v)) && ai < len(g.Params) && helperTrueImpliesLenTest(g, g.Params[ai], minLenLG, depthLG) {
 						si := 0
 						if negated {
 							si = 1
@@ -286,7 +282,7 @@ func c14r1(c *Check) {
 		case "K8":
 			done = dischargeClose(c, s)
 		case "K9":
-			minLenLG = 0
+			minLenLG := int64(0)
 			switch x := s.In.(type) {
 			case *ssa.IndexAddr:
 				if k, ok := constInt(x.Index); ok {
@@ -301,11 +297,10 @@ func c14r1(c *Check) {
 					}
 				}
 			}
-			guarded := lenGuarded(s.Fn, s.In, s.Val)
+			guarded := lenGuardedN(s.Fn, s.In, s.Val, minLenLG, 0)
 			if !guarded && minLenLG == 2 && distinctEnds(c.P, s.Fn, s.In, s.Val, 0) {
 				guarded = true
 			}
-			minLenLG = 0
 			if guarded {
 				done = "controlled by a test of the slice's length"
 			} else if why := knownLength(s); why != "" {
